@@ -568,15 +568,16 @@ func runWorker(ld *loaded, h *harness, stubs map[string]*ssa.Function, tier stri
 }
 
 type knownFinding struct {
-	Property   string   `json:"property"`
-	Harness    string   `json:"harness"`
-	Kind       string   `json:"kind"`
-	Match      string   `json:"match"`                 // substring of "pos | msg"
-	MatchAll   []string `json:"match_all,omitempty"`   // further substrings that must all occur
-	MatchTrace []string `json:"match_trace,omitempty"` // substrings that must all occur in the notes of the failing path (the history)
-	Status     string   `json:"status"`                // known | fixed
-	What       string   `json:"what"`
-	Commit     string   `json:"commit,omitempty"`
+	Property      string   `json:"property"`
+	Harness       string   `json:"harness"`
+	Kind          string   `json:"kind"`
+	Match         string   `json:"match"`                     // substring of "pos | msg"
+	MatchAll      []string `json:"match_all,omitempty"`       // further substrings that must all occur
+	MatchTrace    []string `json:"match_trace,omitempty"`     // substrings that must all occur in the notes of the failing path (the history)
+	MatchTraceAny []string `json:"match_trace_any,omitempty"` // at least one of these must occur in the notes of the failing path
+	Status        string   `json:"status"`                    // known | fixed
+	What          string   `json:"what"`
+	Commit        string   `json:"commit,omitempty"`
 }
 
 // knownClass: index of the status=known finding that violation v of property prop matches, or -1.
@@ -599,6 +600,18 @@ func knownClass(known []knownFinding, prop string, v *sym.Violation) int {
 				if !strings.Contains(tr, m) {
 					all = false
 				}
+			}
+		}
+		if len(k.MatchTraceAny) > 0 {
+			tr := strings.Join(v.Trace, "\n")
+			any := false
+			for _, m := range k.MatchTraceAny {
+				if strings.Contains(tr, m) {
+					any = true
+				}
+			}
+			if !any {
+				all = false
 			}
 		}
 		if all {
